@@ -44,3 +44,11 @@ def old(x):       # only meaningful inside pyvc / the replay harness (which pre-
 
 def pre(x):       # start-of-iteration value inside loop step clauses (pyvc only)
     return x
+
+
+def events(name):     # ghost trace of contract-level events (pyvc only)
+    return []
+
+
+def same_object(a, b):
+    return a is b
